@@ -94,6 +94,16 @@ func (StreamingCRLFileReader) ReadCRL(crlProcessor CRLProcessor, crlFilePath str
 	if err != nil {
 		return nil, err
 	}
+	//the optional parts of the tbsCertList (nextUpdate, revokedCertificates, crlExtensions) can only be present
+	//before the end of the tbsCertList. Looking at the next tag alone is not enough, because the tbsCertList is
+	//followed by the signatureAlgorithm which is a SEQUENCE like the revokedCertificates
+	if !tbsCertListTL.Length.Length.IsInt64() {
+		return nil, errors.New("length of tbsCertList is too large")
+	}
+	tbsCertListEnd := reader.Position() + tbsCertListTL.Length.Length.Int64()
+	insideTbsCertList := func() bool {
+		return reader.Position() < tbsCertListEnd
+	}
 	version := 1
 	if versionExists(reader) {
 		version, err = parseVersion(reader, version)
@@ -115,7 +125,7 @@ func (StreamingCRLFileReader) ReadCRL(crlProcessor CRLProcessor, crlFilePath str
 		return nil, err
 	}
 	var nextUpdate time.Time
-	if nextUpdateTimeExists(reader) {
+	if insideTbsCertList() && nextUpdateTimeExists(reader) {
 		utcTime, err := asn1parser.ReadUtcTime(&reader)
 		if err != nil {
 			return nil, err
@@ -132,7 +142,7 @@ func (StreamingCRLFileReader) ReadCRL(crlProcessor CRLProcessor, crlFilePath str
 	if err != nil {
 		return nil, err
 	}
-	if revokedCertificateListExists(reader) {
+	if insideTbsCertList() && revokedCertificateListExists(reader) {
 		err := parseRevokedCertificateList(issuer, reader, crlProcessor)
 		if err != nil {
 			return nil, err
@@ -140,7 +150,7 @@ func (StreamingCRLFileReader) ReadCRL(crlProcessor CRLProcessor, crlFilePath str
 	}
 	var crlExtensions *[]pkix.Extension = nil
 	var crlNumber *big.Int = nil
-	if extensionsExists(reader, version) {
+	if insideTbsCertList() && extensionsExists(reader, version) {
 		crlExtensions, err = parseExtensions(reader)
 		if err != nil {
 			return nil, err
@@ -259,14 +269,19 @@ func parseRevokedCertificateList(issuer *pkix.RDNSequence, reader hashing.Hashin
 	if err != nil {
 		return err
 	}
-	for {
+	//the list ends where its length says, not where the next element stops to look like an entry
+	if !revokedCertListTag.Length.Length.IsInt64() {
+		return errors.New("length of revokedCertificates is too large")
+	}
+	revokedCertListEnd := reader.Position() + revokedCertListTag.Length.Length.Int64()
+	for reader.Position() < revokedCertListEnd {
 		revokedCertSeq, err := asn1parser.PeekTagLength(&reader, 0)
 		if err != nil {
 			return err
 		}
 
 		if revokedCertSeq.Tag != asn1crypto.SEQUENCE {
-			break
+			return fmt.Errorf("unexpected tag %d inside revokedCertificates", revokedCertSeq.Tag)
 		}
 		revokedCert := new(pkix.RevokedCertificate)
 		err = asn1parser.ReadStruct(&reader, revokedCert)
@@ -334,6 +349,7 @@ func newHashingDERCRLReader(crlFile *os.File) hashing.HashingReaderWrapper {
 	var reader = hashing.HashingReaderWrapper{
 		Reader: bufio.NewReader(crlFile),
 	}
+	reader.EnablePositionTracking()
 	return reader
 }
 
@@ -344,6 +360,7 @@ func newHashingPEMCRLReader(crlFile *os.File) hashing.HashingReaderWrapper {
 	var reader = hashing.HashingReaderWrapper{
 		Reader: bufio.NewReader(decoder),
 	}
+	reader.EnablePositionTracking()
 	return reader
 
 }
